@@ -12,6 +12,7 @@ for f in .work/gen0/*.lean; do
   cmp -s "$f" "$d" || cp "$f" "$d"
 done
 cp .work/gen0/facts.json .work/facts.json
+cp .work/gen0/routes_glue_test.go .work/routes_glue_test.go
 rm -rf .work/gen0
 ( cd lean && lake build )
 # warm the go build cache for the harness packages
